@@ -232,6 +232,26 @@ def chunksOf {α : Type} (n : Nat) : Nat → List α → List (List α)
   | some x => some (s.dropLast, x)
   | none => none
 
+/-- the view for slice patterns with several elements after the rest pattern, `[rem @ .., a, b]`:
+    `.snoc init initView last` where `init` is the list without its last element and `initView` the same view
+    of `init` -/
+inductive SnocView (α : Type) where
+  | nil : SnocView α
+  | snoc (init : List α) (initView : SnocView α) (last : α) : SnocView α
+
+/-- `snocViewRev r` views `r.reverse` -/
+def snocViewRev {α : Type} : List α → SnocView α
+  | [] => .nil
+  | x :: r => .snoc r.reverse (snocViewRev r) x
+
+def snocView {α : Type} (s : List α) : SnocView α := snocViewRev s.reverse
+
+theorem snocView_nil {α : Type} : snocView ([] : List α) = .nil := rfl
+
+theorem snocView_append_singleton {α : Type} (s : List α) (x : α) :
+    snocView (s ++ [x]) = .snoc s (snocView s) x := by
+  simp [snocView, snocViewRev]
+
 /-- `[x; n]` -/
 @[inline] def repeatN {α : Type} (x : α) (n : Nat) : List α := List.replicate n x
 
